@@ -11,7 +11,9 @@ def main():
     for p in sorted(glob.glob(os.path.join(V, "design", "C*.md"))):
         pid = os.path.basename(p)[:-3]
         txt = open(p).read().strip()
-        txt = re.sub(r"^# ", "### ", txt, flags=re.M) if txt.startswith("# ") else txt
+        # demote the note's headings so that they nest under section 7 (its top heading becomes ###)
+        top = min([len(m.group(1)) for m in re.finditer(r"^(#+) ", txt, re.M)] or [3])
+        txt = re.sub(r"^(#+) ", lambda m: "#" * (len(m.group(1)) - top + 3) + " ", txt, flags=re.M)
         out += [txt, "", "_claimed in MANIFEST.json: %s_" % ("yes" if pid in claimed else "no"), ""]
     out += ["## 8. Seeded breaking changes (written by independent sub-agents given only the property text) and what caught them", "",
             "| seed | property | what it needs to manifest | checks run → outcome |", "|---|---|---|---|"]
@@ -21,6 +23,9 @@ def main():
         res = json.load(open(rp)) if os.path.exists(rp) else {}
         oc = "; ".join("%s: %s" % (k, ("caught — " + (v["lines"][1].strip()[:140] if len(v.get("lines", [])) > 1 else "VIOLATION")) if v.get("caught") else "MISSED (exit %s)" % v.get("exit")) for k, v in sorted(res.items())) or "not run yet"
         out.append("| %s | %s | %s | %s |" % (name, meta.get("property"), str(meta.get("needs", "")).replace("|", "/")[:260], oc.replace("|", "/")))
+    cp = os.path.join(V, "design", "CORRECTIONS.md")
+    out += ["", "## 9. Corrections: false alarms, withdrawn fixes and revised decisions", "",
+            open(cp).read().strip() if os.path.exists(cp) else "(none recorded)"]
     out += ["", END, ""]
     open(os.path.join(V, "DESIGN.md"), "w").write(d + "\n" + "\n".join(out))
 if __name__ == "__main__":
